@@ -38,6 +38,7 @@ props! {
     "C17" => props::c17::C17,
     "C18" => props::c18::C18,
     "C19" => props::c19::C19,
+    "C20" => props::c20::C20,
 }
 
 fn main() {
